@@ -11,22 +11,22 @@ open Morlock Morlock.Model Morlock.Model.Score Morlock.Spec
 variable {P : Type}
 
 /-- The explored quiescence tree below `p` is exhausted with `fuel` plies of fuel. -/
-def QDone (g : Game P) (ex : Explore) : Nat → P → Prop
+def QDone (g : Game P) (ex : P → Explore) : Nat → P → Prop
   | 0, _ => False
   | fuel + 1, p =>
-    g.isDraw p = true ∨ ∀ m c, m ∈ g.moves p → ex.pick m = true → g.push p m = some c → QDone g ex fuel c
+    g.isDraw p = true ∨ ∀ m c, m ∈ g.moves p → (ex p).pick m = true → g.push p m = some c → QDone g ex fuel c
 
-theorem mem_kids {g : Game P} {ex : Explore} {p : P} {l : List Move} {c : P} (h : c ∈ kids g ex p l) :
-    ∃ m, m ∈ l ∧ ex.pick m = true ∧ g.push p m = some c := by
+theorem mem_kids {g : Game P} {ex : P → Explore} {p : P} {l : List Move} {c : P} (h : c ∈ kids g ex p l) :
+    ∃ m, m ∈ l ∧ (ex p).pick m = true ∧ g.push p m = some c := by
   unfold kids at h
   simp only [List.mem_filterMap] at h
   obtain ⟨m, hm, e⟩ := h
-  by_cases hp : ex.pick m = true
+  by_cases hp : (ex p).pick m = true
   · simp only [hp, if_true] at e; exact ⟨m, hm, hp, e⟩
   · simp [hp] at e
 
 /-- With enough fuel the reference quiescence value does not depend on the fuel. -/
-theorem Q_stable (g : Game P) (ex : Explore) :
+theorem Q_stable (g : Game P) (ex : P → Explore) :
     ∀ fuel p, QDone g ex fuel p → ∀ fuel', fuel ≤ fuel' → Q g ex fuel' p = Q g ex fuel p := by
   intro fuel
   induction fuel with
@@ -46,10 +46,10 @@ theorem Q_stable (g : Game P) (ex : Explore) :
         rw [ih c (h m c hm hp hpush) f' (by omega)]
       rw [this]
 
-theorem quiesceLoop_fuelOut {g : Game P} {ex : Explore} {rec : P → Score → Score → SState → Score × SState} {p : P}
+theorem quiesceLoop_fuelOut {g : Game P} {ex : P → Explore} {rec : P → Score → Score → SState → Score × SState} {p : P}
     {b : Score} :
     ∀ (l : List Move),
-      (∀ m c, m ∈ l → ex.pick m = true → g.push p m = some c → ∀ a b st, (rec c a b st).2.fuelOut = st.fuelOut) →
+      (∀ m c, m ∈ l → (ex p).pick m = true → g.push p m = some c → ∀ a b st, (rec c a b st).2.fuelOut = st.fuelOut) →
       ∀ (a : Score) (hl : Bool) (st : SState), (quiesceLoop g ex rec p b l a hl st).2.2.fuelOut = st.fuelOut := by
   intro l
   induction l with
@@ -60,7 +60,7 @@ theorem quiesceLoop_fuelOut {g : Game P} {ex : Explore} {rec : P → Score → S
     cases hpush : g.push p m with
     | none => simp only [quiesceLoop, childOf, hpush]; exact ih' _ _ _
     | some c =>
-      cases hp : ex.pick m with
+      cases hp : (ex p).pick m with
       | false =>
         simp only [quiesceLoop, childOf, hpush, hp, Bool.false_eq_true, if_false]
         split
@@ -74,7 +74,7 @@ theorem quiesceLoop_fuelOut {g : Game P} {ex : Explore} {rec : P → Score → S
         · rw [ih' _ _ _]; exact this
 
 /-- With enough fuel `Model.quiesce` never sets `fuelOut` (for any window and any state, cancelled or not). -/
-theorem quiesce_fuelOut (g : Game P) (ex : Explore) :
+theorem quiesce_fuelOut (g : Game P) (ex : P → Explore) :
     ∀ fuel p, QDone g ex fuel p → ∀ a b st, (quiesce g ex fuel p a b st).2.fuelOut = st.fuelOut := by
   intro fuel
   induction fuel with
@@ -88,7 +88,7 @@ theorem quiesce_fuelOut (g : Game P) (ex : Explore) :
     · split
       · simp [poll]
       · rename_i hnd
-        have hkids : ∀ m c, m ∈ heapOrder (g.moves p) ex.prio → ex.pick m = true → g.push p m = some c →
+        have hkids : ∀ m c, m ∈ heapOrder (g.moves p) (ex p).prio → (ex p).pick m = true → g.push p m = some c →
             ∀ a b st, (quiesce g ex fuel c a b st).2.fuelOut = st.fuelOut := by
           intro m c hm hp hpush
           rcases h with h | h
